@@ -394,4 +394,6 @@ class Gen(GxCore, GxIdioms, GxProgram):
         prog = Program(fns, structs=self.structs, enums=self.enums, unions=self.unions, globals_=gl)
         if self.gx and self.feat.get("unions2"):
             prog["late_structs"] = ["Holder"]
+        if self.gx and self.feat.get("enums2"):
+            prog["late_structs"] = prog.get("late_structs", []) + ["Px"]
         return prog
